@@ -214,6 +214,16 @@ def checked (t : Table) : List Access :=
 
 def accessesOk (t : Table) : Bool := (checked t).all (accessOk t)
 
+/-- the accesses of lazily initialised fields (guarded by the pseudo lock of a sync.Once): the write must be inside the
+    `Do` closure (pseudo lock exclusive), every read behind a call that went through that `Do` (pseudo lock shared) -/
+def lazyAccesses (t : Table) (lazy : List Lock) : List Access :=
+  (checked t).filter fun a =>
+    match guardOf t.guards a.field with
+    | .lock l => lazy.contains l
+    | _ => false
+
+def lazyOk (t : Table) (lazy : List Lock) : Bool := (lazyAccesses t lazy).all (accessOk t)
+
 /-- signatures of the accesses that violate the discipline (used by the driver / reports) -/
 def violations (t : Table) : List Access :=
   t.accesses.filter fun a => phaseOf t a.fn == .run && !accessOk t a
